@@ -34,6 +34,9 @@ def outcome(load, docs):
     from sigma.exceptions import SigmaError
     try:
         col = load(docs)
+    except SigmaError as e:
+        return ("error", type(e).__name__)      # at load time
+    try:
         b = TextQueryTestBackend()
         b.convert(col)
         res = {}
@@ -45,7 +48,7 @@ def outcome(load, docs):
                 res[key] = ("no-result", type(e).__name__)
         return ("ok", tuple(sorted(res.items())))
     except SigmaError as e:
-        return ("error", type(e).__name__)
+        return ("error-at-conversion", type(e).__name__)
 
 
 @register
@@ -65,16 +68,15 @@ class C09Bounded(Bounded):
         def from_dicts(docs):
             return SigmaCollection.from_dicts(copy.deepcopy(docs))
 
-        def merge(docs):
-            return SigmaCollection.merge([SigmaCollection.from_dicts([copy.deepcopy(d)], collect_errors=False) if False else SigmaCollection([_load_one(d)], resolve_references=False) for d in docs]) if False else SigmaCollection.merge(
-                [SigmaCollection.from_dicts_unresolved([d]) for d in docs]) if hasattr(SigmaCollection, "from_dicts_unresolved") else from_dicts(docs)
+        def merge(docs):     # one collection per document, merged with the default arguments of merge()
+            return SigmaCollection.merge([SigmaCollection.from_dicts([copy.deepcopy(d)], resolve_references=False) for d in docs])
 
         def load_ruleset(docs):
             d = tempfile.mkdtemp(dir=root)
             for i, doc in enumerate(docs):
                 open(os.path.join(d, f"{i:02d}.yml"), "w").write(yaml.safe_dump(doc))
             return SigmaCollection.load_ruleset([d])
-        loaders = {"from_yaml": from_yaml, "from_dicts": from_dicts, "load_ruleset": load_ruleset}
+        loaders = {"from_yaml": from_yaml, "from_dicts": from_dicts, "load_ruleset": load_ruleset, "merge": merge}
         ev = nontriv = 0
         seen, fails, samples = {}, [], []
         try:
@@ -110,5 +112,5 @@ class C09Bounded(Bounded):
         finally:
             shutil.rmtree(root, ignore_errors=True)
         return {"evaluations": ev, "distinct_nontrivial": nontriv, "failures": fails, "failure_counts": seen,
-                "bound": f"{len(SETS)} rule sets (<= 5 documents, chains of depth <= 3, name and id references, anonymous correlation rules, unrelated rules) x all permutations ({'sampled 24' if tier == 'quick' else 'exhaustive'}) x 3 load paths",
+                "bound": f"{len(SETS)} rule sets (<= 5 documents, chains of depth <= 3, name and id references, anonymous correlation rules, unrelated rules) x all permutations ({'sampled 24' if tier == 'quick' else 'exhaustive'}) x 4 load paths (from_yaml, from_dicts, load_ruleset, merge of single-document collections)",
                 "rule": "distinct (set, permutation, load path)", "samples": samples, "exhaustive": tier != "quick"}
